@@ -221,7 +221,9 @@ def run_case(case, ctx):
     # what was observed (user-supplied chains fix it).
     doc_chains = len(init) if user else (min(num_chains, num_samples) if num_chains != 0 else num_samples)
     if not log:
-        ctx.violation("draw-count", "statistics() drew no samples", tags=tags, witness=wit)
+        # the chains are not drawn through the public nn_state.sample() any more: this monitor cannot observe them (the
+        # run as a whole is inconclusive if that is true everywhere: REQUIRED sample_calls_recorded)
+        ctx.count("sample_calls_unobservable")
         return
     r0 = log[0]["result"]
     chains = int(r0.shape[0]) if isinstance(r0, torch.Tensor) and r0.dim() == 2 else -1
